@@ -273,19 +273,34 @@ def run(tier: str) -> Run:
     T.reset()
     it = Interp(repo, Model())
 
-    def wp(i):
-        g = build(repo, i, 'GaussianModel', prefix='a_')
-        w = i.call_function(i.find_method(g.cls, 'with_prefix'), ['b_'], {}, bound=g)
-        # what the two models report through their public properties, asked after the renamed copy was made
-        rep = [(i.call_function(i.find_method(m.cls, 'prefix'), [], {}, bound=m), i.call_function(i.find_method(m.cls, 'param_names'), [], {}, bound=m)) for m in (g, w)]
-        return g, w, rep
-    outs = it.run_all(wp)
-    ok = len(outs) == 1 and outs[0].kind == 'return'
-    detail = {}
-    if ok:
-        g, w, rep = outs[0].value
-        detail = {'original': (rep[0][0], sorted(rep[0][1]) if isinstance(rep[0][1], set) else repr(rep[0][1])),
-                  'renamed': (rep[1][0], sorted(rep[1][1]) if isinstance(rep[1][1], set) else repr(rep[1][1]))}
-        ok = g is not w and rep[0] == ('a_', {'a_amplitude', 'a_loc', 'a_scale'}) and rep[1] == ('b_', {'b_amplitude', 'b_loc', 'b_scale'})
-    r6.check(ok, 'with_prefix', loc(repo.func(MOD, 'Model.with_prefix')), detail, key='with_prefix')
+    names3 = ('amplitude', 'loc', 'scale')
+    for used_first in (False, True):
+        T.reset()
+        it = Interp(repo, Model())
+
+        def wp(i, used_first=used_first):
+            g = build(repo, i, 'GaussianModel', prefix='a_')
+            if used_first:
+                # the model is asked for its parameter names and evaluated before it is renamed (what a composite or an earlier fit does)
+                i.getattr(g, 'param_names', None)
+                call_model(repo, i, g, params_for(i, names3, 'a_'))
+            w = i.call_function(i.find_method(g.cls, 'with_prefix'), ['b_'], {}, bound=g)
+            # what the two models report through their public attributes after the renamed copy was made, and what they evaluate to
+            rep = [(i.getattr(m, 'prefix', None), i.getattr(m, 'param_names', None)) for m in (g, w)]
+            vals = [call_model(repo, i, m, params_for(i, names3, pre)) for m, pre in ((g, 'a_'), (w, 'b_'))]
+            return g, w, rep, vals
+        outs = it.run_all(wp)
+        ok = len(outs) == 1 and outs[0].kind == 'return'
+        detail = {'outcomes': [(o.kind, o.exc_type, o.where) for o in outs]}
+        if ok:
+            g, w, rep, vals = outs[0].value
+            as_set = lambda x: set(x) if isinstance(x, set | frozenset | list | tuple) else x  # noqa: E731
+            detail = {'original': (rep[0][0], sorted(as_set(rep[0][1])) if isinstance(as_set(rep[0][1]), set) else repr(rep[0][1])),
+                      'renamed': (rep[1][0], sorted(as_set(rep[1][1])) if isinstance(as_set(rep[1][1]), set) else repr(rep[1][1]))}
+            same_value = all(isinstance(v, SVar) and isinstance(v.term, Rat) for v in vals) and eq_term(vals[0].term, vals[1].term)
+            ok = g is not w and (rep[0][0], as_set(rep[0][1])) == ('a_', {'a_amplitude', 'a_loc', 'a_scale'}) \
+                and (rep[1][0], as_set(rep[1][1])) == ('b_', {'b_amplitude', 'b_loc', 'b_scale'}) and same_value
+            detail['same_value_under_either_prefix'] = same_value
+        r6.check(ok, 'with_prefix' + (' of a model that was used before' if used_first else ''), loc(repo.func(MOD, 'Model.with_prefix')), detail,
+                 key='with_prefix' + ('-after-use' if used_first else ''))
     return run
